@@ -8,7 +8,8 @@
 //   3                        copy a strong handle        4  drop a strong handle       5  co_await pause()
 //   6 kind v                 call the collector and keep the returned suspend point     7  destroy the oldest kept one
 //   8                        co_await the oldest kept suspend point
-//   9 id limit pause retry keep   (first op only) listener awaiting signal<T>::hook_up(fn); fn keeps / drops the collector
+//   9 id limit pause retry keep [n]   (first op only) listener awaiting signal<T>::hook_up(fn); fn calls the collector n times
+//                                  (values 901..) from inside the registration call, then keeps / drops the collector
 // observation: status ret news deletes {event-kind id value}*
 #define VH_DEFINE_NEW
 #include "common.h"
@@ -173,7 +174,8 @@ static bool valid(Ctx<T> &c, const std::vector<long> &op) {
         case 7: return op.size() == 1 && !c.held.empty();
         case 8: return op.size() == 1 && c.coro && !c.held.empty();
         case 9:
-            return c.first && op.size() == 6 && in(0, 63, op[1]) && in(0, 9, op[2]) && in(0, 1, op[3]) && in(0, 3, op[4]) && in(0, 1, op[5]);
+            return c.first && (op.size() == 6 || (op.size() == 7 && in(0, 3, op[6]))) && in(0, 63, op[1]) && in(0, 9, op[2]) && in(0, 1, op[3]) &&
+                   in(0, 3, op[4]) && in(0, 1, op[5]);
         default: return false;
     }
 }
@@ -277,10 +279,18 @@ static void exec_plain(Ctx<T> &c, const std::vector<long> &op) {
             c.ids.insert(op[1]);
             bool keep = op[5] == 1;
             Ctx<T> *cp = &c;
-            auto reg = [cp, keep](typename signal<T>::collector col) {
+            long nemit = op.size() == 7 ? op[6] : 0;
+            auto reg = [cp, keep, nemit](typename signal<T>::collector col) {
                 bool saved = vh::t_count;
                 vh::t_count = false;
                 cp->root = signal<T>(col).get_emitter();
+                vh::t_count = saved;
+                // a generator that replays to its new observer from inside the registration call
+                for (long j = 1; j <= nemit; j++) {
+                    if constexpr (std::is_void_v<T>) col();
+                    else col(900 + j);
+                }
+                vh::t_count = false;
                 if (keep) cp->handles.push_back(std::move(col));
                 vh::t_count = saved;
             };
